@@ -169,6 +169,31 @@ def exempt_rule(ctx: Ctx, rule: str) -> None:
                              "although nothing the function can observe changed"], "accepted-path-external",
                             what="a variable of untracked type in an accepted module leaks the module path into signatures (code copied to another accepted module is re-executed)")
 
+    # an object known to be defined in ANOTHER module than the one that mentions it is never named after the mentioning module
+    ctx_param = next((p_ for p_ in rec.params if "mod" in p_ and p_ != "self" and p_ != "cls"), None)
+    if ctx_param is not None:
+        elsewhere = []
+        for b in cfg.nodes:
+            if b.kind == "branch" and isinstance(b.ast, ast.Compare) and len(b.ast.ops) == 1 and isinstance(b.ast.comparators[0], ast.Name) and b.ast.comparators[0].id == ctx_param:
+                if (isinstance(b.ast.ops[0], ast.IsNot) and b.label == "T") or (isinstance(b.ast.ops[0], ast.Is) and b.label == "F"):
+                    elsewhere.append(b)
+        n_re = 0
+        for n in rec.own_nodes():
+            if isinstance(n, ast.Return) and isinstance(n.value, ast.Call) and unparse(n.value.func).endswith("ExternalObject") and n.value.args:
+                if not elsewhere or dominated(ctx, rec, n, elsewhere) is not None:
+                    continue
+                n_re += 1
+                sl = ctx.slicer(follow_calls=False).slice(rec, n.value.args[0])
+                it = sl.find(lambda f_, x: f_ is rec and isinstance(x, ast.Name) and x.id == ctx_param)
+                desc = "an object imported from another module is named after its defining module, never after the module that mentions it"
+                if it is None:
+                    rep.ok(rule, rec.qname, desc, rec.loc(n))
+                else:
+                    rep.bad(rule, rec.qname, desc, rec.loc(n), it.chain() + [
+                        f"{rec.loc(n)}: `{unparse(n, 70)}` is reached when the object was found to live in another module than `{ctx_param}`, yet its recorded path is built from `{ctx_param}`",
+                        "the importing module's name is hashed (ext_dep value): the same code copied to another accepted module gets new signatures and every kept function that mentions the import runs again"],
+                        "reexport-named-after-importer", what="a re-exported external object is recorded under the importing module's name")
+
 
 # declared exceptions of the process-state rule: (function, source) -> reason (one named symbol each)
 PROCESS_EXCEPTIONS = {
@@ -342,3 +367,10 @@ def run(ctx: Ctx) -> None:
     visitors.sibling_pruning(ctx, "C02.R5")
     nb = visitors.body_only(ctx, "C02.R5")
     rep.floor("C02.R5", nb, 4)
+
+    # ---- R7: committed paths are those of the latest evaluation -------------------------------------------------
+    from .c04 import commit_rules
+    rep.rule("C02.R7", "as C04.R1: the complete path map is committed on every evaluation, cache hit or not: the key a later evaluation reads through "
+                       "dds.load (and hashes into its signature) is the one of the code as it is now, not of an earlier edit")
+    commit_rules(ctx, top, "C02.R7")
+
